@@ -72,7 +72,8 @@ type Config struct {
 	File    string
 	Prog    string
 	Dir     string   // empty | sentinel
-	Form    string   // abs | rel
+	Form    string   // abs | rel | rel-out-named (cwd = parent, -o <OutName>) | rel-in-cwd (cwd = input directory, -i <bare file name>)
+	OutName string   // name of the output directory ("" = out)
 	Fault   string   // "" | outfile-is-dir:<ext>
 	Bad     string   // "" or the name of a bad option set
 	Raw     []string // bad option sets: argument template with {F} and {D}
@@ -82,6 +83,9 @@ func (c Config) String() string {
 	s := fmt.Sprintf("targets=%s order=%s spell=%s file=%q prog=%s dir=%s form=%s", strings.Join(c.Targets, ","), c.Order, c.Spell, c.File, c.Prog, c.Dir, c.Form)
 	if c.Fault != "" {
 		s += " fault=" + c.Fault
+	}
+	if c.OutName != "" {
+		s += " outdir=" + c.OutName
 	}
 	if c.Bad != "" {
 		s += " bad=" + c.Bad + " args=" + strings.Join(c.Raw, "␣")
@@ -289,6 +293,20 @@ func enumerate(thorough bool) []Config {
 	bad("stray-word@first", b1, "word", "-i", "{F}", "-o", "{D}", "-t", "bash")
 	bad("out-dir-missing", b1, "-i", "{F}", "-o", "{D}/nonexistent", "-t", "bash")
 	bad("out-dir-is-file", b1, "-i", "{F}", "-o", "{F}", "-t", "bash")
+	// (E) option VALUES that coincide with each other or with a target name: an output directory called bash or
+	// batch given relatively, an input file called bash or batch given by its bare name; every option order
+	for _, ts := range targetSeqs(2) {
+		for _, ord := range orders(len(ts)) {
+			for _, d := range []string{"empty", "sentinel"} {
+				for _, on := range []string{"bash", "batch"} {
+					out = append(out, Config{Targets: ts, Order: ord, Spell: shortSpell(len(ts) + 2), File: "p.tsh", Prog: "ok-small", Dir: d, Form: "rel-out-named", OutName: on})
+				}
+				for _, f := range []string{"bash", "batch"} {
+					out = append(out, Config{Targets: ts, Order: ord, Spell: shortSpell(len(ts) + 2), File: f, Prog: "ok-small", Dir: d, Form: "rel-in-cwd"})
+				}
+			}
+		}
+	}
 	// (D) injected environment fault: the output path of one target is a directory
 	for _, ts := range targetSeqs(2) {
 		for _, ext := range []string{"sh", "bat"} {
@@ -367,7 +385,11 @@ func runConfig(c Config) result {
 	res := result{C: c}
 	root := drive.NewDir("c19-")
 	defer os.RemoveAll(root)
-	in, out := filepath.Join(root, "in"), filepath.Join(root, "out")
+	outName := "out"
+	if c.OutName != "" {
+		outName = c.OutName
+	}
+	in, out := filepath.Join(root, "in"), filepath.Join(root, outName)
 	os.MkdirAll(in, 0o755)
 	os.MkdirAll(out, 0o755)
 	pc := progByName(c.Prog)
@@ -463,11 +485,18 @@ func runConfig(c Config) result {
 	// ---- the command
 	fp, dp, cwd := fpath, out, filepath.Join(root, "cwd")
 	os.MkdirAll(cwd, 0o755)
-	if c.Form == "rel" {
+	rfp, rdp := "$IN/"+c.File, "$OUT"
+	switch c.Form {
+	case "rel":
 		fp, dp, cwd = filepath.Join("in", c.File), "out", root
+	case "rel-out-named":
+		fp, dp, cwd = filepath.Join("in", c.File), outName, root
+		rfp, rdp = fp, dp
+	case "rel-in-cwd":
+		fp, dp, cwd = c.File, filepath.Join("..", outName), in
+		rfp, rdp = fp, dp
 	}
 	argv := c.argv(fp, dp)
-	rfp, rdp := "$IN/"+c.File, "$OUT"
 	res.Argv = c.argv(rfp, rdp)
 	ctx, cancel := context.WithTimeout(context.Background(), 120*time.Second)
 	defer cancel()
@@ -751,7 +780,17 @@ func replay(res result) func() findings.Replay {
 		var sb strings.Builder
 		sb.WriteString("set -u\nT=$(mktemp -d); trap 'rm -rf \"$T\"' EXIT\n")
 		sb.WriteString("(cd /repo && GOFLAGS=-mod=mod GOPROXY=off GOSUMDB=off GOTOOLCHAIN=local go build -o \"$T/tsh\" . ) && cp -r /repo/std \"$T/std\" || exit 2\n")
-		sb.WriteString("IN=\"$T/in\"; OUT=\"$T/out\"; mkdir -p \"$IN\" \"$OUT\" \"$T/cwd\"\n[ -d in ] && cp -r in/. \"$IN/\"\n")
+		outName, runIn := "out", "$T/cwd"
+		if res.C.OutName != "" {
+			outName = res.C.OutName
+		}
+		switch res.C.Form {
+		case "rel-out-named":
+			runIn = "$T"
+		case "rel-in-cwd":
+			runIn = "$T/in"
+		}
+		sb.WriteString("IN=\"$T/in\"; OUT=\"$T/" + outName + "\"; mkdir -p \"$IN\" \"$OUT\" \"$T/cwd\"\n[ -d in ] && cp -r in/. \"$IN/\"\n")
 		pc := progByName(res.C.Prog)
 		if pc.Kind == "dir" {
 			sb.WriteString("mkdir -p \"$IN/\"" + shQuote(res.C.File) + "\n")
@@ -764,7 +803,7 @@ func replay(res result) func() findings.Replay {
 			sb.WriteString("rm -f \"$OUT/\"" + shQuote(base+"."+e) + "; mkdir \"$OUT/\"" + shQuote(base+"."+e) + "\n")
 		}
 		sb.WriteString("cp -r \"$OUT\" \"$T/out.before\"\n")
-		sb.WriteString("( cd \"$T/cwd\" && \"$T/tsh\" " + strings.Join(q, " ") + " ) 2> \"$T/stderr.txt\"; st=$?\n")
+		sb.WriteString("( cd \"" + runIn + "\" && \"$T/tsh\" " + strings.Join(q, " ") + " ) 2> \"$T/stderr.txt\"; st=$?\n")
 		sb.WriteString("echo \"exit status: $st (the property expects: " + res.Expect + ")\"; head -3 \"$T/stderr.txt\"\necho \"output directory now:\"; ls -la \"$OUT\"\nbad=0\n")
 		if res.Expect == "success" {
 			sb.WriteString("[ $st -ne 0 ] && bad=1\n")
